@@ -284,3 +284,15 @@ func ShapeDigest(s Set) string {
 	}
 	return hex.EncodeToString(h.Sum(nil))[:16]
 }
+
+// Closed reports whether every predecessor named by an entry of the set is in the set.
+func Closed(s Set) bool {
+	for _, e := range s {
+		for _, n := range e.Next {
+			if _, ok := s[n]; !ok {
+				return false
+			}
+		}
+	}
+	return true
+}
